@@ -8,7 +8,7 @@ use crate::dictgen::DictOpts;
 use crate::env::Place;
 use crate::report::{clip, guard, Report};
 use crate::rng::{fnv, Rng};
-use crate::scen::{self, build_world, observe, Obs, Tok, MODES};
+use crate::scen::{self, observe, Obs, Tok, MODES};
 use crate::textgen;
 use crate::Ctx;
 
@@ -48,7 +48,9 @@ pub fn run(ctx: &Ctx, rep: &mut Report) {
         rep.progress_idx(wi, "C01 world");
         let dopts = DictOpts { loose_compounds: true, ..DictOpts::default() };
         let place = if wi % 4 == 3 { Place::Offset(1) } else { Place::Owned };
-        let world = match guard(|| build_world(&mut rng, &dopts, None, true, place)) {
+        // every third world: unusual settings of the input-text plugins (empty / longer replacement, other brackets)
+        let odd_cfg = wi % 3 == 2;
+        let world = match guard(|| scen::build_world_tweak(&mut rng, &dopts, true, place, |r, p| if odd_cfg { p.randomize_input_cfg(r) })) {
             Ok(Ok(w)) => w,
             Ok(Err(e)) => {
                 rep.count("worlds_rejected", 1);
@@ -64,8 +66,26 @@ pub fn run(ctx: &Ctx, rep: &mut Report) {
         let keys = world.keys();
         let mut toks: Vec<Tok> = MODES.iter().map(|m| Tok::new(&world.dict, *m)).collect();
         let mut sub = MorphemeList::empty(&world.dict);
-        for ti in 0..texts_per_world {
-            let text = textgen::text_from_keys(&mut rng, &keys, 8);
+        let mut texts: Vec<String> = (0..texts_per_world).map(|_| textgen::text_from_keys(&mut rng, &keys, 8)).collect();
+        // inputs around and beyond the documented size limits (49,149 bytes of input, 65,535 bytes after
+        // normalisation): whatever is accepted must partition like any other input
+        if wi % 2 == 1 {
+            for target in [49_000 + rng.below(149), 49_150 + rng.below(600), 65_500 + rng.below(4_000)] {
+                texts.push(textgen::long_text(&mut rng, &keys, target));
+            }
+        }
+        if let Some((marks, _)) = &world.plugins.prolonged_cfg {
+            // runs made of prolonged sound marks only: with an empty replacement the normalised text is empty
+            for _ in 0..3 {
+                let n = 1 + rng.below(5);
+                texts.push((0..n).map(|_| *rng.pick(marks)).collect());
+            }
+        }
+        for (ti, text) in texts.iter().enumerate() {
+            let text = text.clone();
+            if text.len() > 40_000 {
+                rep.count("long_inputs_offered", 1);
+            }
             for (mi, mode) in MODES.iter().enumerate() {
                 rep.eval();
                 let t = &mut toks[mi];
@@ -95,6 +115,17 @@ pub fn run(ctx: &Ctx, rep: &mut Report) {
                     }
                 };
                 rep.count("morphemes_checked", obs.len() as u64);
+                if text.len() > 40_000 {
+                    rep.count("long_inputs_accepted", 1);
+                }
+                if obs.is_empty() && t.normalized.is_empty() {
+                    // only an input whose normalised form is empty yields no morphemes
+                    rep.count("empty_normalized_inputs", 1);
+                    if !text.is_empty() {
+                        rep.count("nonempty_inputs_normalised_to_empty", 1);
+                    }
+                    continue;
+                }
                 if let Some(msg) = check_partition(&text, &obs, 0, text.len()) {
                     rep.violation("partition", "check_partition", &msg, "", scenario());
                     continue;
